@@ -15,7 +15,8 @@ def _c02_case(c):
 CONFIG = {
     "name": "C02",
     "properties_file": "Properties/C02_protocol.v",
-    "proof_files": ["Proofs/CopyImpl.v"],
+    "proof_files": ["Proofs/CopyImplBase.v", "Proofs/CopyImplInv.v", "Proofs/CopyImplInv2.v", "Proofs/CopyImplLive.v",
+                    "Proofs/CopyImplDeadlock.v"],
     "model_files": ["Model/CopyImpl.v"],
     "extract": "XCopyImpl.v",
     "ml_main": "goimpl_main.ml",
